@@ -644,7 +644,9 @@ func run(c *Ctx) error {
 		o, fail := observe(p)
 		if fail != "" {
 			st.Fail(fail, map[string]interface{}{"stream": stream, "program": hex.EncodeToString(p)})
-			toModel = true
+			if len(st.OracleFailures) < 20 {
+				toModel = true // the first failing inputs are also shown to the model
+			}
 		}
 		if full {
 			st.Case(hex.EncodeToString(p), len(p) > 0)
